@@ -17,7 +17,9 @@ CFG = dict(
          "sampled option combinations x forms; distinct = sha256 of the input term; non-trivial = the profile has a recursive or an "
          "inlined (multi-line) stack. End-to-end streams: an 83-entry profile (more than the default limit of 80) with nodecount "
          "0 / not given / trim=false for tree, dot, top through cli, session (own numeric argument) and web; option combinations x "
-         "{cli, session with decoy assignments and a previous command, web /top}; legacy -inuse_space/-mean_delay... flags",
+         "{cli, session with decoy assignments and a previous command, web /top}; legacy -inuse_space/-mean_delay... flags. Round 5 (deterministic): "
+         "label pseudo frames with string AND numeric values under one tag key, units, zero/negative/huge numbers, absent / repeated / "
+         "unknown keys; profiles without samples, all-zero samples, unnamed functions, locations without mapping or lines, id gaps",
     spec_what="a flat/cum/edge/total number in some output form differs from its definition over the samples",
     trusted_base=["text parsers of the harness (numbers parsed back out of report text)",
                   "entry identity (graph.nodeInfo, profile.Aggregate) modelled, not proved against a spec",
